@@ -232,6 +232,74 @@ def access_kind(txt, a, b):
     return "read"
 
 
+def split_top(cond, op):
+    """split a condition at the top-level occurrences of && or ||"""
+    parts, depth, cur, i = [], 0, "", 0
+    while i < len(cond):
+        c = cond[i]
+        if c in "([":
+            depth += 1
+        elif c in ")]":
+            depth -= 1
+        if depth == 0 and cond.startswith(op, i):
+            parts.append(cur)
+            cur = ""
+            i += len(op)
+            continue
+        cur += c
+        i += 1
+    parts.append(cur)
+    return [re.sub(r"\s+", "", p) for p in parts]
+
+
+def if_statements(txt, lo, hi):
+    """(position of `if`, condition text, position after the condition) of the if statements in txt[lo:hi]"""
+    out = []
+    for m in re.finditer(r"\bif\s*\(", txt[lo:hi]):
+        i = lo + m.end()
+        depth = 1
+        while i < hi and depth:
+            depth += {"(": 1, ")": -1}.get(txt[i], 0)
+            i += 1
+        out.append((lo + m.start(), txt[lo + m.end():i - 1], i))
+    return out
+
+
+def dominated_by_flag(txt, blocks, pos, flag):
+    """is every path to txt[pos] dominated by a test of `flag` that leaves when it is set?  Accepted shapes only:
+       (a) an enclosing block that is the body of `if (... && !flag && ...)` (top-level conjunct, not an else branch);
+       (b) a statement `if (... || flag || ...) return/throw ...;` (top-level disjunct, no preceding else) that sits
+           directly in one of the enclosing blocks, before pos.
+       A test nested inside another conditional (e.g. only on the schema branch) does not dominate."""
+    neg = ("!" + flag, "!this->" + flag)
+    posf = (flag, "this->" + flag)
+    x = innermost(blocks, pos)
+    while x is not None and x.kind in ("block", "func"):
+        # (a)
+        hdr = header_of(txt, x.start)
+        mm = re.search(r"(?<!\w)if\s*\((.*)\)\s*$", hdr, re.S)
+        if mm and not re.search(r"\belse\s*$", hdr[:mm.start()]):
+            if any(p in neg for p in split_top(mm.group(1), "&&")):
+                return True
+        # (b)
+        for ifpos, cond, after in if_statements(txt, x.start + 1, pos):
+            if innermost(blocks, ifpos) is not x:
+                continue
+            if re.search(r"\belse\s*$", txt[max(x.start, ifpos - 12):ifpos]):
+                continue
+            if not any(p in posf for p in split_top(cond, "||")):
+                continue
+            rest = txt[after:after + 200].lstrip()
+            if rest.startswith("{"):
+                rest = rest[1:].lstrip()
+            if re.match(r"(return\b|throw\b|ThrowXML)", rest):
+                return True
+        if x.kind == "func":
+            break
+        x = x.parent
+    return False
+
+
 # --------------------------------------------------------------------------------------------------------------
 # T-globals
 # --------------------------------------------------------------------------------------------------------------
@@ -294,7 +362,7 @@ def src_files(repo):
     return sorted(fs), root
 
 
-def generate(so=None, repo=None):
+def generate(so=None, repo=None, range_audit=None):
     so = so or V.lib_so("lib")
     repo = repo or V.REPO
     syms = nm_symbols(so)
@@ -510,29 +578,20 @@ def generate(so=None, repo=None):
         work = sorted(set(nxt))
         depth += 1
 
-    # ---- locked grammar pool: every mutation of the registry sits behind the fLocked guard -----------------------
+    # ---- locked grammar pool: EVERY path to a mutation of the registry is dominated by the fLocked test ----------------
     pool_guards = []
     fpool = os.path.join(root, "framework", "XMLGrammarPoolImpl.cpp")
     txt, blocks, starts = scan(fpool)
-    for m in re.finditer(r"\bfGrammarRegistry\s*->\s*(put|orphanKey|removeAll|removeKey|removeNextElement)\s*\(", txt):
+    for m in re.finditer(r"\bfGrammarRegistry\s*->\s*(put|orphanKey|removeAll|removeKey|removeNextElement|cleanup)\s*\(", txt):
         blk = innermost(blocks, m.start())
         fn, _ = enclosing(blk)
-        guarded = False
-        x = blk
-        while x is not None and x.kind in ("block", "func"):
-            if re.search(r"\bif\s*\(\s*!\s*fLocked\s*\)\s*$", header_of(txt, x.start)):
-                guarded = True
-            if x.kind == "func":
-                if re.search(r"\bif\s*\(\s*fLocked\b[^;{}]*\)\s*return\b", txt[x.start:m.start()]):
-                    guarded = True
-                break
-            x = x.parent
-        pool_guards.append({"func": fn or "", "op": m.group(1), "line": line_of(starts, m.start()), "guarded": guarded})
+        pool_guards.append({"func": fn or "", "op": m.group(1), "line": line_of(starts, m.start()),
+                            "guarded": dominated_by_flag(txt, blocks, m.start(), "fLocked")})
     if not pool_guards:
         raise TranslateError("no registry mutation found in XMLGrammarPoolImpl.cpp")
 
     inv = {"so": so, "symbols": entries, "sites": sites, "init": init_info, "callers": callers,
-           "pool_guards": pool_guards}
+           "pool_guards": pool_guards, "range_audit": range_audit or []}
     write_coq(inv)
     side = os.path.join(V.BUILD, "c17_inventory.json")
     os.makedirs(V.BUILD, exist_ok=True)
@@ -632,6 +691,11 @@ def write_coq(inv):
         "  (%s, [%s])" % (cstr(k), "; ".join(cstr(x) for x in v)) for k, v in sorted(inv["callers"].items()))
     t += "Definition gen_pool_guards : list (string * (string * bool)) := [%s].\n" % "; ".join(
         "(%s, (%s, %s))" % (cstr(g["func"]), cstr(g["op"]), "true" if g["guarded"] else "false") for g in inv["pool_guards"])
+    t += "(* state of every RangeToken reachable from RangeTokenMap right after Initialize, asked from the built library:\n" \
+         "   (keyword, (complement, (present, map built))) *)\n"
+    t += "Definition gen_range_tokens : list (string * (bool * (bool * bool))) := [\n%s\n].\n" % ";\n".join(
+        "  (%s, (%s, (%s, %s)))" % (cstr(a["key"]), "true" if a["compl"] else "false", "true" if a["present"] else "false",
+                                     "true" if a["map"] else "false") for a in inv["range_audit"])
     V.write_if_changed(os.path.join(gen, "GenInit17.v"), t)
     g = hdr % "nm -C --defined-only libxerces-c (sections b B d D) + FACILITIES"
     g += "(* interned strings; index = position *)\nDefinition gen_names : list string := [\n  %s\n].\n\n" % ";\n  ".join(cstr(x) for x in names)
@@ -648,8 +712,22 @@ def write_coq(inv):
 KINDS = ["decl", "read", "write", "dwrite", "deref", "addr"]
 
 
+def parse_audit(text):
+    out = []
+    for ln in text.splitlines():
+        m = re.match(r"^TOKEN (\S+) ([01]) present=([01]) map=([01]) compacted=([01]) sorted=([01]) casei=([01])$", ln)
+        if m:
+            out.append({"key": m.group(1), "compl": m.group(2) == "1", "present": m.group(3) == "1", "map": m.group(4) == "1",
+                        "compacted": m.group(5) == "1", "casei": m.group(7) == "1"})
+    return out
+
+
 if __name__ == "__main__":
-    inv = generate()
+    aud = None
+    xh = os.path.join(V.BIN, "xh_C17-tsan")
+    if os.path.exists(xh):
+        aud = parse_audit(V.sh([xh, "audit"], timeout=120)[1])
+    inv = generate(range_audit=aud)
     print("%d symbols, %d sites" % (len(inv["symbols"]), len(inv["sites"])))
     for k, v in sorted(inv["callers"].items()):
         print("callers", k, "<-", v)
